@@ -266,7 +266,14 @@ class Evaluator:
         for p, a in zip(ctor.params, args):
             env[p['id']] = a
         for i in ctor.inits:
-            if i['t'] == 'base':
+            if i['t'] == 'delegating':
+                b = ir.strip(i['e'])
+                g = self.F.fn(b['fn']) if b.get('k') == 'ctor' and b.get('fn') is not None else None
+                if g is None or depth > self.max_depth:
+                    raise NotPure('delegating constructor without a body')
+                bargs = [self.ev(a, ctor, obj, env, depth) for a in b.get('args', [])]
+                obj.update(self.construct(g, bargs, depth + 1))
+            elif i['t'] == 'base':
                 b = ir.strip(i['e'])
                 if b['k'] == 'ctor':
                     g = self.F.fn(b['fn']) if b.get('fn') is not None else None
@@ -285,9 +292,27 @@ class Evaluator:
                     obj[i['name']] = self.ev(i['e'], ctor, obj, env, depth)
                 except NotPure:
                     obj[i['name']] = None
+        # constructor body: placement-new of a value into a byte-array member is modelled as "that member now holds the value"
+        # (byte arrays are one opaque value in this domain); anything else in a body is outside the fragment
         body = ctor.body
-        if body and body.get('b'):
-            pass   # constructor bodies of the value types we evaluate only placement-new the payload
+        for st in (ir.walk_stmts(body) if body else []):
+            if st.get('s') in ('block', 'null'):
+                continue
+            e = ir.strip(st['e']) if st.get('s') == 'expr' and ir.is_expr(st.get('e')) else None
+            if e is not None and e['k'] == 'c':
+                continue
+            if e is not None and e['k'] == 'cast' and ir.is_expr(e.get('e')) and ir.strip(e['e'])['k'] == 'c':
+                continue
+            if e is not None and e['k'] == 'new' and len(e.get('place') or []) == 1:
+                tgt = ir.strip(e['place'][0])
+                if tgt['k'] == 'un' and tgt['op'] == '&':
+                    tgt = ir.strip(tgt['e'])
+                if tgt['k'] == 'mem' and ir.strip(tgt['b'])['k'] == 'this':
+                    init = ir.strip(e['init']) if ir.is_expr(e.get('init')) else None
+                    srcs = [self.ev(a, ctor, obj, env, depth) for a in ((init.get('args') or init.get('es') or []) if init is not None and init['k'] in ('ctor', 'init') else ([init] if init is not None else []))]
+                    obj[tgt['f']] = srcs[0] if len(srcs) == 1 else tuple(srcs)
+                    continue
+            raise NotPure('constructor body of %s: %s' % (ctor.short, ir.pp_stmt(st)[:80]))
         return obj
 
     def default_fields(self, rec, obj):
